@@ -54,6 +54,13 @@ THEOREMS = ["Claripy.Props.C12.C12_mro_child", "Claripy.Props.C12.C12_mro_compos
             "Claripy.Solver.compEvalX_step", "Claripy.Solver.compBatchEvalX_step", "Claripy.Solver.compSolutionX_step",
             "Claripy.Solver.compMaxX_step", "Claripy.Solver.compMinX_step", "Claripy.Solver.comp_stepE", "Claripy.Solver.comp_histE",
             "Claripy.Solver.comp_histE_inv", "Claripy.Solver.InScopeCX.toCE",
+            # branch() of the composite: copy-on-write children, the frame rule, trees of composites (given the footprint CompFrames)
+            "Claripy.Props.C12.C12_branch_keeps_invariant", "Claripy.Props.C12.C12_claim_copy_on_write",
+            "Claripy.Props.C12.C12_invariant_frame", "Claripy.Props.C12.C12_composite_tree_step_partial",
+            "Claripy.Props.C12.C12_composite_tree_history_partial", "Claripy.Props.C12.cTreeHist_ok",
+            "Claripy.Solver.CInv.transfer", "Claripy.Solver.CInv.frame", "Claripy.Solver.CInv.finalized", "Claripy.Solver.tinvS_finalize",
+            "Claripy.Solver.finAll_spec", "Claripy.Solver.compBranch_eq", "Claripy.Solver.compBranch_spec", "Claripy.Solver.claim_spec",
+            "Claripy.Solver.tree_step", "Claripy.Solver.tree_hist", "Claripy.Solver.treeInv_init",
             "Claripy.Solver.CInv.of_world", "Claripy.Solver.compQuery_keeps", "Claripy.Solver.compTruth_keeps",
             "Claripy.Solver.solverForNames_one", "Claripy.Solver.child_truth_foot", "Claripy.Solver.MCInv.evalExh",
             "Claripy.Solver.MCInv.opt"]
